@@ -34,6 +34,16 @@ func (x *Exec) libraryModel(st *State, call *ast.CallExpr, c *callee, recv *T, a
 	case "fmt.Sprintf", "fmt.Sprint", "fmt.Sprintln":
 		x.trust("fmt.Sprintf result is an unconstrained string unless a contract says otherwise")
 		return x.havocVal(st, "sprintf", rt(0)), true
+	case "encoding/hex.EncodeToString":
+		x.d.declareFun("hex_enc", []string{"(Slc Int)"}, "Str")
+		x.trust("hex.EncodeToString is a function of the byte string (uninterpreted hex_enc)")
+		r := T{S: app("hex_enc", args[0].S), Ty: rt(0)}
+		st.assume(eq(app("strlen", r.S), fmt.Sprintf("(* 2 %s)", slcLen(args[0].S))))
+		return r, true
+	case "strconv.Itoa":
+		x.d.declareFun("itoa", []string{"Int"}, "Str")
+		x.trust("strconv.Itoa is a function of the integer (uninterpreted itoa)")
+		return T{S: app("itoa", args[0].S), Ty: rt(0)}, true
 	case "fmt.Printf", "fmt.Println", "fmt.Print", "fmt.Fprintf", "fmt.Fprintln":
 		return pack(x.freshResults(st, sig, "print"), call), true
 	case "errors.Is":
